@@ -10,6 +10,7 @@ import (
 
 	"verif/sim/enga"
 	"verif/sim/engb"
+	"verif/sim/engc"
 	"verif/sim/kernel"
 )
 
@@ -23,6 +24,9 @@ var engines = map[string]engine{
 		return enga.Execute(p, k, v)
 	}},
 	"B": {gen: engb.Gen, exec: engb.Execute},
+	"C": {gen: engc.Gen, exec: func(_ *testing.T, p *kernel.Plan, k map[string]bool, v bool) *kernel.Result {
+		return engc.Execute(p, k, v)
+	}},
 }
 
 func TestWorker(t *testing.T) {
